@@ -326,6 +326,27 @@ pub fn exec_op<F: PrimeField, C: ConstraintSystem<F> + Hooks<F>>(
 ) {
     sh.steps += 1;
     let prover = sh.role == Role::Prover;
+    // a program may only refer to handles the real object has returned so far;
+    // if the real and model tables have drifted apart (a divergence already
+    // reported), stop interpreting instead of indexing out of range
+    let refs_ok = |sh: &Shared<F>, e: &Expr| sh.model.refs_in_range(e) && e.max_table().map(|i| i < sh.table.len()).unwrap_or(true);
+    let val_ok = |sh: &Shared<F>, v: &Val| match v {
+        Val::Lit(_) => true,
+        Val::Eval(e) | Val::EvalPlus(e, _) => refs_ok(sh, e),
+        Val::EvalMul(a, b) => refs_ok(sh, a) && refs_ok(sh, b),
+    };
+    let ok = match op {
+        Op::Alloc(Some(v)) => val_ok(sh, v),
+        Op::AllocMul(Some((l, r))) => val_ok(sh, l) && val_ok(sh, r),
+        Op::Mul(l, r) => refs_ok(sh, l) && refs_ok(sh, r),
+        Op::Constrain(e) => refs_ok(sh, e),
+        Op::OverwriteGate { gate, l, r, o } => *gate < sh.model.gates && val_ok(sh, l) && val_ok(sh, r) && val_ok(sh, o),
+        _ => true,
+    };
+    if !ok {
+        sh.diverge(format!("{}: the program refers to a handle or gate that does not exist on this role at this point (execution order or numbering differs from the model)", op.kind()));
+        return;
+    }
     match op {
         Op::Alloc(val) => {
             let a: Option<F> = if prover {
@@ -452,6 +473,21 @@ pub fn drive_prover<'g, G: AffineRepr>(
 ) -> Vec<G> {
     let mut commitments = vec![];
     for op in ops {
+        step_prover(cs, op, sh, &mut commitments);
+    }
+    commitments
+}
+
+/// One top-level API call of the prover role (so that a scheduler can
+/// interleave the calls of several live sessions).
+pub fn step_prover<'g, G: AffineRepr>(
+    cs: &mut Prover<'g, G, &'g mut Transcript>,
+    op: &Op,
+    sh: &Rc<RefCell<Shared<G::ScalarField>>>,
+    commitments: &mut Vec<G>,
+) {
+    {
+        {
         match op {
             Op::Commit { v, r } => {
                 let mut s = sh.borrow_mut();
@@ -489,8 +525,8 @@ pub fn drive_prover<'g, G: AffineRepr>(
             }
             other => exec_op(cs, other, &mut sh.borrow_mut()),
         }
+        }
     }
-    commitments
 }
 
 /// Top-level driver for the verifier role.
